@@ -32,6 +32,14 @@ def concrete_event(e, style):
     if style == 'nofrac' or (style == 'mixed' and e % 2 == 0):
         ms = 0
         tstr = '%04d-%02d-%02dT%02d:%02d:%02d' % (d.year, d.month, d.day, h, mi, s)
+    elif style == 'frac12' or (style == 'mixed' and e % 7 == 3):
+        # one or two fractional digits, as a '%.1f' / '%.2f' writer produces: .5 is 500 ms, .75 is 750 ms
+        if e % 2:
+            ms = (ms // 100) * 100
+            tstr = '%04d-%02d-%02dT%02d:%02d:%02d.%d' % (d.year, d.month, d.day, h, mi, s, ms // 100)
+        else:
+            ms = (ms // 10) * 10
+            tstr = '%04d-%02d-%02dT%02d:%02d:%02d.%02d' % (d.year, d.month, d.day, h, mi, s, ms // 10)
     elif style == 'ms3' or (style == 'mixed' and e % 3 == 0):
         tstr = '%04d-%02d-%02dT%02d:%02d:%02d.%03d' % (d.year, d.month, d.day, h, mi, s, ms)
     else:
@@ -251,7 +259,7 @@ def run(chk, replay=None):
     if len(cases) < 100:
         raise MachineryError('Gen produced only %d cases' % len(cases))
     chk.log('Gen: %d cases' % len(cases))
-    styles = ['us6', 'nofrac', 'mixed'] if quick else ['us6', 'nofrac', 'ms3', 'mixed']
+    styles = ['us6', 'nofrac', 'frac12', 'mixed'] if quick else ['us6', 'nofrac', 'ms3', 'frac12', 'mixed']
     apis = ['classmethod', 'ses', 'forecast'] if quick else ['classmethod', 'ses', 'forecast', 'forecast_nostore']
     nbad = 0
     for ci, case in enumerate(cases):
@@ -296,7 +304,7 @@ def run(chk, replay=None):
                 i = rng.choice(cand)
                 file[i], file[i + 1] = file[i + 1], file[i]
                 mode = 'dec'
-        style = rng.choice(['us6', 'nofrac', 'ms3', 'mixed'])
+        style = rng.choice(['us6', 'nofrac', 'ms3', 'frac12', 'mixed'])
         tr = record_trace(chk, file, truth, mode, style, scratch)
         traces.append(tr)
         chk.nontrivial('trace:%d:%s:%d:%s' % (n_cat, mode, len(file), style))
